@@ -26,15 +26,15 @@ type Director struct {
 	chain atomic.Pointer[[]*chaingen.Node]
 	// byHash knows every block that was EVER part of the honest chain (blocks
 	// of replaced branches stay: a key naming one of them is not "foreign").
-	// replaced maps a height to the block most recently replaced at that height
-	// by a re-organisation.
+	// replaced maps a height to the block that the most recent re-organisation
+	// replaced at that height.
 	hmu      sync.RWMutex
 	byHash   map[chainhash.Hash]*chaingen.Node
 	replaced map[int32]*chaingen.Node
 	peerIdx  map[string]int
-	seed    int64
-	cur     atomic.Pointer[roundState]
-	reqSeq  atomic.Int64
+	seed     int64
+	cur      atomic.Pointer[roundState]
+	reqSeq   atomic.Int64
 	// unsolValid is the per-round allowance of VALID unsolicited filters: a
 	// valid in-range filter counts as progress and re-arms the worker's
 	// timeout, so an unbounded trickle would keep a failing query alive for
@@ -86,10 +86,16 @@ func (d *Director) SetChain(tip *chaingen.Node) {
 	path := tip.Path()
 	d.hmu.Lock()
 	if old := d.chain.Load(); old != nil {
+		// Only the blocks replaced by the LATEST re-organisation are kept as
+		// "the replaced block at that height" (pure growth replaces nothing).
+		repl := map[int32]*chaingen.Node{}
 		for h, n := range *old {
 			if h >= len(path) || path[h] != n {
-				d.replaced[int32(h)] = n
+				repl[int32(h)] = n
 			}
+		}
+		if len(repl) > 0 {
+			d.replaced = repl
 		}
 	}
 	for _, n := range path {
